@@ -1065,7 +1065,7 @@ def oracle_C13(run):
         if D is None:
             D = decs[c] = hpack.Decoder()
             D.max_header_list_size = 2**30
-            D.max_allowed_table_size = 2**30
+            D.max_allowed_table_size = 2**32    # above any HEADER_TABLE_SIZE a peer can announce
             pending[c] = {'buf': b'', 'expect': [], 'taint': False}
         P = pending[c]
         if P['taint']:
@@ -1176,7 +1176,7 @@ def oracle_C14(run):
         if D is None:
             D = decs[c] = hpack.Decoder()
             D.max_header_list_size = 2**30
-            D.max_allowed_table_size = 2**30
+            D.max_allowed_table_size = 2**32    # above any HEADER_TABLE_SIZE a peer can announce
         blocks = _out_blocks(fr)
         o = op['op']
         r = res(obs)
